@@ -1,0 +1,34 @@
+//go:build verif
+
+package peer
+
+// Accessors for the verification harness (/verif, properties C22 and C23).
+// Add-only; compiled only with -tags verif.
+
+// VerifAppliedMark returns applyMark.DoneUntil(): every raft index up to it
+// has been through finishApply.
+func (p *Peer) VerifAppliedMark() uint64 {
+	if p == nil || p.applyMark == nil {
+		return 0
+	}
+	return p.applyMark.DoneUntil()
+}
+
+// VerifPendingReads returns the number of ReadIndex requests waiting for
+// their ReadState.
+func (p *Peer) VerifPendingReads() int {
+	if p == nil {
+		return 0
+	}
+	p.readMu.Lock()
+	defer p.readMu.Unlock()
+	return len(p.pendingReads)
+}
+
+// VerifReadSeq returns how many ReadIndex requests this peer has issued.
+func (p *Peer) VerifReadSeq() uint64 {
+	if p == nil {
+		return 0
+	}
+	return p.readSeq.Load()
+}
